@@ -21,7 +21,8 @@ MAGS = [3.0, 30.0, 1e4, -5e5]
 def table(tier):
     t = [(["boxed", "free"], "cubic", [("bilinear", "eq0"), ("affine", "upper")]),
          (["lower", "upper"], "rosen", [("sphere", "ranged")]),
-         (["free", "free"], "exp", [("sphere", "eqoff"), ("cubic", "lower")])]
+         (["free", "free"], "exp", [("sphere", "eqoff"), ("cubic", "lower")]),
+         (["boxed", "free"], "cubic", [])]
     if tier == "thorough":
         t += [(["boxed", "boxed", "free"], "cubic", [("sphere", "eq0"), ("bilinear", "ranged")]),
               (["free"], "quartic", [("sphere", "upper")]),
